@@ -2,24 +2,30 @@ namespace PqModel.Seek
 
 /-! # FilePages.SeekToRow / ReadPage at page granularity (C08)
 
-A column chunk is the list of the row counts of its data pages (`Chunk.rows`) plus whether the
-chunk metadata records a dictionary page offset (`Chunk.dict`, Go `f.dictOffset > 0`).
-Stream positions are counted in data pages instead of bytes: `St.pos` is the page the section
-reader / bufio reader will actually decode next, `St.index` is what the code *believes* that page
-to be (`f.index`). The cached page is `St.last = some (lastPageIndex, page actually cached)`.
+A column chunk is the list of the row counts of its data pages (`Chunk.rows`), whether the chunk
+metadata records a dictionary page offset (`Chunk.dict`, Go `f.dictOffset > 0`) and the data pages
+whose checksum does not match their body (`Chunk.bad`: `ReadPage` consumes such a page and fails
+with ErrCorrupted). Stream positions are counted in data pages instead of bytes: `St.pos` is the
+page the section reader / bufio reader will actually decode next, `St.index` is what the code
+*believes* that page to be (`f.index`). The cached page is `St.last = some (lastPageIndex, page
+actually cached)`. `St.lost` is `f.desync` (set by a failed `ReadPage`); the code before the
+repairs has no such field, there it is a ghost that nothing reads.
 
-* MIRROR (transliteration of the Go code as it stands): `seekAsis`, `readLoop`, `readPage`, `stepAsis`.
-* MIRROR of the repaired code (proposed_fixes/F11.diff): `seekFixed`, `stepFixed` (ReadPage is unchanged).
-* SPEC (written from the property statement): `SpecOK`, `RunOK` — a reader is a row counter.
+* MIRROR (the Go code before the repairs): `seekAsis`, `readLoop`, `readPage`, `stepAsis`.
+* MIRROR of the repaired code (the `fix:` commits on FilePages.SeekToRow/ReadPage): `seekFixed`,
+  `stepFixed` (`ReadPage` differs only by setting `desync` on failure).
+* SPEC (written from the property statement): `SpecOK`, `RunOK` — a reader is a row counter whose
+  position is undefined (`none`) between a failed read and the next seek.
 
 Not modelled (tied by L1 only): byte offsets and the in-buffer Discard (all three ways of moving
 the stream are `pos := t`), data pages that do not start on a row boundary (the writer of this
 library never produces them), pages with zero rows, negative row indexes, encryption ordinals,
-reference counts of the cached page. -/
+reference counts of the cached page, failures other than a consumed page with a wrong checksum. -/
 
 structure Chunk where
   rows : List Nat    -- row count of every data page, in file order
   dict : Bool        -- f.dictOffset > 0
+  bad  : List Nat := []  -- data pages whose checksum does not match
 deriving Repr, DecidableEq
 
 structure St where
@@ -29,6 +35,7 @@ structure St where
   skip  : Nat                 -- f.skip
   last  : Option (Nat × Nat)  -- (f.lastPageIndex, page actually held by f.lastPage)
   serve : Bool                -- f.serveLastPage
+  lost  : Bool := false       -- f.desync: a ReadPage failed since the last seek
 deriving Repr, DecidableEq
 
 inductive Op where
@@ -42,12 +49,13 @@ inductive Out where
   | err
   | eof
   | page (p start len : Nat)  -- rows start..start+len-1, cut from data page p
+  | corrupt                   -- ReadPage failed: checksum mismatch (ErrCorrupted)
 deriving Repr, DecidableEq
 
 /-- pages[i].FirstRowIndex -/
 def firstRow (rows : List Nat) (i : Nat) : Nat := (rows.take i).sum
 
-/-- `sort.Search(len(pages), pages[i].FirstRowIndex > k) - 1` as a linear scan (file.go:1582-1584) -/
+/-- `sort.Search(len(pages), pages[i].FirstRowIndex > k) - 1` as a linear scan -/
 def findPage (rows : List Nat) (k : Nat) : Nat → Nat → Nat
   | 0, acc => acc
   | fuel + 1, acc =>
@@ -55,15 +63,15 @@ def findPage (rows : List Nat) (k : Nat) : Nat → Nat → Nat
 
 def target (rows : List Nat) (k : Nat) : Nat := findPage rows k rows.length 0
 
-/-- file.go:1117-1136 `FilePages.init` -/
+/-- `FilePages.init` -/
 def init (hasIndex : Bool) : St :=
-  { hasIndex := hasIndex, index := 0, pos := 0, skip := 0, last := none, serve := false }
+  { hasIndex := hasIndex, index := 0, pos := 0, skip := 0, last := none, serve := false, lost := false }
 
-/-- MIRROR of `FilePages.SeekToRow` as it stands (file.go:1550-1636).
-    1555-1569 no offset index: rewind to dataOffset, `skip = rowIndex`, `index = 0|1`;
-    1572-1581 empty page list; 1582-1589 target and skip; 1592-1595 cached-page shortcut (returns
-    before touching the stream and never clears the flag); 1598-1600 believed position equals the
-    target; 1602-1634 move the stream (Discard / Seek+Reset, all `pos := t` here). -/
+/-- MIRROR of `FilePages.SeekToRow` before the repairs.
+    No offset index: rewind to dataOffset, `skip = rowIndex`, `index = 0|1`; empty page list;
+    target and skip; cached-page shortcut (returns before touching the stream and never clears
+    the flag); believed position equals the target; move the stream (Discard / Seek+Reset, all
+    `pos := t` here). -/
 def seekAsis (c : Chunk) (s : St) (k : Nat) : St × Out :=
   if s.hasIndex = false then
     ({ s with pos := 0, skip := k, index := if c.dict then 1 else 0 }, .ok)
@@ -78,11 +86,18 @@ def seekAsis (c : Chunk) (s : St) (k : Nat) : St × Out :=
       else if s.index = t then (s, .ok) else ({ s with index := t, pos := t }, .ok)
     | none => if s.index = t then (s, .ok) else ({ s with index := t, pos := t }, .ok)
 
-/-- MIRROR of the repaired `SeekToRow` (proposed_fixes/F11.diff): every successful seek clears
+/-- the `desync` block of the repaired `SeekToRow`: after a failed read drop the page cache -/
+def resync (s : St) : St :=
+  if s.lost then { s with lost := false, last := none, serve := false } else s
+
+/-- MIRROR of the repaired `SeekToRow`: after a failed `ReadPage` (`desync`) the cache is dropped
+    and the `index == target` shortcut is not taken; every successful seek clears
     `serveLastPage`; the cached page is served only when the stream is positioned right behind it
     (`f.index == target+1`), otherwise the page is read again from the stream; the no-index path
     numbers data pages from 0 like the index path does. -/
-def seekFixed (c : Chunk) (s : St) (k : Nat) : St × Out :=
+def seekFixed (c : Chunk) (s0 : St) (k : Nat) : St × Out :=
+  let desync := s0.lost
+  let s := resync s0
   if s.hasIndex = false then
     ({ s with pos := 0, skip := k, index := 0, serve := false }, .ok)
   else if c.rows.isEmpty then
@@ -93,41 +108,43 @@ def seekFixed (c : Chunk) (s : St) (k : Nat) : St × Out :=
     match s.last with
     | some (li, _) =>
       if t = li ∧ s.index = t + 1 then ({ s with serve := true }, .ok)
-      else if s.index = t then (s, .ok) else ({ s with index := t, pos := t }, .ok)
-    | none => if s.index = t then (s, .ok) else ({ s with index := t, pos := t }, .ok)
+      else if s.index = t ∧ desync = false then (s, .ok) else ({ s with index := t, pos := t }, .ok)
+    | none => if s.index = t ∧ desync = false then (s, .ok) else ({ s with index := t, pos := t }, .ok)
 
-/-- MIRROR of the `for` loop of `FilePages.ReadPage` (file.go:1193-1320): decode the page under the
-    stream (EOF when there is none), cache it with the believed index (1269-1278), then return it
-    (1279-1304), skip it entirely (1310-1311, 1319) or return its tail (1313-1316). -/
-def readLoop (rows : List Nat) : Nat → St → St × Out
+/-- MIRROR of the `for` loop of `FilePages.ReadPage`: decode the page under the stream (EOF when
+    there is none; a page whose checksum does not match is consumed and the read fails, leaving
+    `index` and the cache alone), cache it with the believed index, then return it, skip it
+    entirely or return its tail. -/
+def readLoop (rows bad : List Nat) : Nat → St → St × Out
   | 0, s => (s, .eof)
   | fuel + 1, s =>
     match rows[s.pos]? with
     | none => (s, .eof)
     | some nr =>
+      if s.pos ∈ bad then ({ s with pos := s.pos + 1, lost := true }, .corrupt) else
       let s' := { s with last := some (s.index, s.pos), index := s.index + 1, pos := s.pos + 1 }
       if s.skip = 0 then (s', .page s.pos (firstRow rows s.pos) nr)
-      else if nr ≤ s.skip then readLoop rows fuel { s' with skip := s.skip - nr }
+      else if nr ≤ s.skip then readLoop rows bad fuel { s' with skip := s.skip - nr }
       else ({ s' with skip := 0 }, .page s.pos (firstRow rows s.pos + s.skip) (nr - s.skip))
 
-/-- MIRROR of `FilePages.ReadPage` (file.go:1169-1321); 1179-1191 is the cached-page preamble. -/
-def readPage (rows : List Nat) (s : St) : St × Out :=
+/-- MIRROR of `FilePages.ReadPage`; the first branch is the cached-page preamble. -/
+def readPage (rows bad : List Nat) (s : St) : St × Out :=
   match s.serve, s.last with
   | true, some (li, lp) =>
     let s := { s with serve := false, index := li + 1 }
     let nr := rows.getD lp 0
     if s.skip < nr then ({ s with skip := 0 }, .page lp (firstRow rows lp + s.skip) (nr - s.skip))
-    else readLoop rows (rows.length + 1) { s with skip := s.skip - nr }
-  | _, _ => readLoop rows (rows.length + 1) s
+    else readLoop rows bad (rows.length + 1) { s with skip := s.skip - nr }
+  | _, _ => readLoop rows bad (rows.length + 1) s
 
 def stepAsis (c : Chunk) (s : St) : Op → St × Out
   | .seek k => seekAsis c s k
-  | .readPage => readPage c.rows s
+  | .readPage => readPage c.rows c.bad s
   | .loadIndex => ({ s with hasIndex := true }, .ok)
 
 def stepFixed (c : Chunk) (s : St) : Op → St × Out
   | .seek k => seekFixed c s k
-  | .readPage => readPage c.rows s
+  | .readPage => readPage c.rows c.bad s
   | .loadIndex => ({ s with hasIndex := true }, .ok)
 
 /-- run a history, collecting the state and output after every op -/
@@ -142,23 +159,33 @@ def outs (step : St → Op → St × Out) (s : St) (ops : List Op) : List Out :=
 
 def total (c : Chunk) : Nat := c.rows.sum
 
-/-- One step of the reference reader standing before row `n`: a seek moves it to `k` (it may be
-    refused only when `k` is beyond the last row, and then nothing changes); a read delivers the
-    rest of the page that contains row `n` and EOF exactly when no row is left. -/
-def SpecOK (c : Chunk) (n : Nat) (op : Op) (n' : Nat) (out : Out) : Prop :=
+/-- One step of the reference reader standing before row `n` (`none`: a read failed and no seek
+    has happened since, the position is undefined). A seek moves it to `k` (it may be refused only
+    when `k` is beyond the last row, and then nothing changes). A read delivers the rest of the
+    page that contains row `n` — never from a corrupted page —, EOF exactly when no row is left, or
+    fails, which it may only do when a corrupted page starts at or before row `n` (and must do when
+    row `n` lies in one); after a failure the position is undefined. -/
+def SpecOK (c : Chunk) (n : Option Nat) (op : Op) (n' : Option Nat) (out : Out) : Prop :=
   match op with
-  | .seek k => (out = .ok ∧ n' = k) ∨ (out = .err ∧ n' = n ∧ total c < k)
+  | .seek k => (out = .ok ∧ n' = some k) ∨ (out = .err ∧ n' = n ∧ total c < k)
   | .loadIndex => out = .ok ∧ n' = n
   | .readPage =>
-    if total c ≤ n then out = .eof ∧ n' = n
-    else out = .page (target c.rows n) n (firstRow c.rows (target c.rows n + 1) - n) ∧
-         n' = firstRow c.rows (target c.rows n + 1) ∧ n < n' ∧ n' ≤ total c
+    match n with
+    | none => n' = none
+    | some n =>
+      match out with
+      | .corrupt => n' = none ∧ ∃ q ∈ c.bad, q < c.rows.length ∧ firstRow c.rows q ≤ n
+      | .eof => total c ≤ n ∧ n' = some n
+      | .page p st len => n < total c ∧ p = target c.rows n ∧ p ∉ c.bad ∧ st = n ∧
+          len = firstRow c.rows (p + 1) - n ∧ n' = some (firstRow c.rows (p + 1)) ∧
+          n < firstRow c.rows (p + 1) ∧ firstRow c.rows (p + 1) ≤ total c
+      | _ => False
 
-inductive RunOK (c : Chunk) : Nat → List Op → List Out → Prop where
+inductive RunOK (c : Chunk) : Option Nat → List Op → List Out → Prop where
   | nil (n) : RunOK c n [] []
   | cons {n op n' out ops os} : SpecOK c n op n' out → RunOK c n' ops os → RunOK c n (op :: ops) (out :: os)
 
-/-! ### F11 on the mirror of the unchanged code: ten pages of ten rows -/
+/-! ### the findings on the mirror of the unchanged code -/
 
 def c10 : Chunk := { rows := List.replicate 10 10, dict := false }
 
@@ -170,6 +197,10 @@ def histB : List Op := [.seek 20, .readPage, .seek 25, .seek 72, .readPage]
     loaded lazily afterwards (file opened with SkipPageIndex, then `ColumnChunk.OffsetIndex()`) -/
 def c10d : Chunk := { rows := List.replicate 10 10, dict := true }
 def histC : List Op := [.seek 5, .readPage, .loadIndex, .seek 12, .readPage]
+/-- history D: page 1 fails its checksum; the retry seek into it takes the `index == target`
+    shortcut although the stream is already behind that page -/
+def c3bad : Chunk := { rows := [100, 100, 100], dict := false, bad := [1] }
+def histD : List Op := [.readPage, .readPage, .seek 150, .readPage]
 
 example : outs (stepAsis c10) (init true) histA = [.ok, .page 2 20 10, .ok, .ok, .page 2 25 5, .page 7 70 10] := by decide
 example : outs (stepFixed c10) (init true) histA = [.ok, .page 2 20 10, .ok, .ok, .page 2 25 5, .page 3 30 10] := by decide
@@ -177,6 +208,8 @@ example : outs (stepAsis c10) (init true) histB = [.ok, .page 2 20 10, .ok, .ok,
 example : outs (stepFixed c10) (init true) histB = [.ok, .page 2 20 10, .ok, .ok, .page 7 72 8] := by decide
 example : outs (stepAsis c10d) (init false) histC = [.ok, .page 0 5 5, .ok, .ok, .page 0 2 8] := by decide
 example : outs (stepFixed c10d) (init false) histC = [.ok, .page 0 5 5, .ok, .ok, .page 1 12 8] := by decide
+example : outs (stepAsis c3bad) (init true) histD = [.page 0 0 100, .corrupt, .ok, .page 2 250 50] := by decide
+example : outs (stepFixed c3bad) (init true) histD = [.page 0 0 100, .corrupt, .ok, .corrupt] := by decide
 
 /-! ### arithmetic of `firstRow` and `target` -/
 
@@ -274,36 +307,41 @@ theorem target_unique (rows : List Nat) (k p : Nat) (hk : k < rows.sum)
 
 /-! ### invariants and the abstraction -/
 
-/-- what `ReadPage` relies on: only the actual stream position and the actually cached page -/
-def RInv (rows : List Nat) (s : St) : Prop :=
+/-- what `ReadPage` relies on: only the actual stream position and the actually cached page
+    (which was read successfully, hence is not a corrupted one) -/
+def RInv (rows bad : List Nat) (s : St) : Prop :=
   s.pos ≤ rows.length ∧
-  (∀ li lp, s.last = some (li, lp) → lp < rows.length) ∧
+  (∀ li lp, s.last = some (li, lp) → lp < rows.length ∧ lp ∉ bad) ∧
   (s.serve = true → ∃ li lp, s.last = some (li, lp) ∧ s.pos = lp + 1)
 
 /-- believed and actual page numbers agree -/
 def Agree (s : St) : Prop :=
   s.index = s.pos ∧ ∀ li lp, s.last = some (li, lp) → li = lp
 
-/-- abstraction: the next row this reader will deliver -/
+/-- the next row this reader will deliver (meaningful while `lost = false`) -/
 def next (rows : List Nat) (s : St) : Nat :=
   match s.serve, s.last with
   | true, some (_, lp) => firstRow rows lp + s.skip
   | _, _ => firstRow rows s.pos + s.skip
 
-/-- outcome of a read that starts before row `start` -/
-def ReadOK (rows : List Nat) (start : Nat) (r : St × Out) : Prop :=
-  RInv rows r.1 ∧ r.1.serve = false ∧
+/-- abstraction: the reader's row position, undefined between a failed read and the next seek -/
+def npos (rows : List Nat) (s : St) : Option Nat := if s.lost then none else some (next rows s)
+
+/-- outcome of a read that starts before row `start`, `lost0` being `desync` before the read -/
+def ReadOK (rows bad : List Nat) (lost0 : Bool) (start : Nat) (r : St × Out) : Prop :=
+  RInv rows bad r.1 ∧ r.1.serve = false ∧
   match r.2 with
-  | .page p st len => st = start ∧ 0 < len ∧ next rows r.1 = st + len ∧ st + len ≤ rows.sum ∧
-      firstRow rows p ≤ st ∧ st + len = firstRow rows (p + 1)
-  | .eof => rows.sum ≤ start ∧ next rows r.1 = start
+  | .page p st len => r.1.lost = lost0 ∧ p ∉ bad ∧ st = start ∧ 0 < len ∧ next rows r.1 = st + len ∧
+      st + len ≤ rows.sum ∧ firstRow rows p ≤ st ∧ st + len = firstRow rows (p + 1)
+  | .eof => r.1.lost = lost0 ∧ rows.sum ≤ start ∧ next rows r.1 = start
+  | .corrupt => r.1.lost = true ∧ ∃ q ∈ bad, q < rows.length ∧ firstRow rows q ≤ start
   | _ => False
 
-theorem readLoop_spec (rows : List Nat) (hpos : ∀ r ∈ rows, 0 < r) :
+theorem readLoop_spec (rows bad : List Nat) (hpos : ∀ r ∈ rows, 0 < r) :
     ∀ (fuel : Nat) (s : St), s.pos ≤ rows.length → s.serve = false →
-      (∀ li lp, s.last = some (li, lp) → lp < rows.length) →
+      (∀ li lp, s.last = some (li, lp) → lp < rows.length ∧ lp ∉ bad) →
       rows.length - s.pos < fuel →
-      ReadOK rows (firstRow rows s.pos + s.skip) (readLoop rows fuel s)
+      ReadOK rows bad s.lost (firstRow rows s.pos + s.skip) (readLoop rows bad fuel s)
   | 0, s, _, _, _, hf => by omega
   | fuel + 1, s, hi, hs, hl, hf => by
     simp only [readLoop]
@@ -316,7 +354,7 @@ theorem readLoop_spec (rows : List Nat) (hpos : ∀ r ∈ rows, 0 < r) :
       refine ⟨⟨hi, hl, by simp [hs]⟩, hs, ?_⟩
       simp only [next, hs]
       rw [firstRow_all rows s.pos hge]
-      exact ⟨by omega, by cases s.last <;> trivial⟩
+      exact ⟨trivial, by omega, by cases s.last <;> trivial⟩
     | some nr =>
       have hlt : s.pos < rows.length := by
         rcases Nat.lt_or_ge s.pos rows.length with h | h
@@ -326,39 +364,45 @@ theorem readLoop_spec (rows : List Nat) (hpos : ∀ r ∈ rows, 0 < r) :
       have hfs := firstRow_succ rows s.pos nr hr
       have hle := firstRow_le_sum rows (s.pos + 1)
       simp only []
-      split
-      · rename_i h0
-        refine ⟨⟨by simp; omega, ?_, by simp [hs]⟩, by simp [hs], ?_⟩
-        · intro li lp h; simp at h; omega
-        · simp only [next, hs]
-          simp [h0]
-          omega
-      · split
-        · rename_i h0 hle'
-          have := readLoop_spec rows hpos fuel
-            { s with last := some (s.index, s.pos), index := s.index + 1, pos := s.pos + 1, skip := s.skip - nr }
-            (by simp; omega) (by simp [hs]) (by intro li lp h; simp at h; omega) (by simp; omega)
-          have he : firstRow rows (s.pos + 1) + (s.skip - nr) = firstRow rows s.pos + s.skip := by omega
-          simpa [he] using this
-        · rename_i h0 hgt
+      by_cases hb : s.pos ∈ bad
+      · rw [if_pos hb]
+        refine ⟨⟨by simp; omega, hl, by simp [hs]⟩, by simp [hs], ?_⟩
+        exact ⟨rfl, s.pos, hb, hlt, by omega⟩
+      · rw [if_neg hb]
+        split
+        · rename_i h0
           refine ⟨⟨by simp; omega, ?_, by simp [hs]⟩, by simp [hs], ?_⟩
-          · intro li lp h; simp at h; omega
+          · intro li lp h; simp at h; obtain ⟨_, rfl⟩ := h; exact ⟨hlt, hb⟩
           · simp only [next, hs]
-            simp
-            omega
+            simp [h0]
+            exact ⟨hb, by omega⟩
+        · split
+          · rename_i h0 hle'
+            have := readLoop_spec rows bad hpos fuel
+              { s with last := some (s.index, s.pos), index := s.index + 1, pos := s.pos + 1, skip := s.skip - nr }
+              (by simp; omega) (by simp [hs])
+              (by intro li lp h; simp at h; obtain ⟨_, rfl⟩ := h; exact ⟨hlt, hb⟩) (by simp; omega)
+            have he : firstRow rows (s.pos + 1) + (s.skip - nr) = firstRow rows s.pos + s.skip := by omega
+            simpa [he] using this
+          · rename_i h0 hgt
+            refine ⟨⟨by simp; omega, ?_, by simp [hs]⟩, by simp [hs], ?_⟩
+            · intro li lp h; simp at h; obtain ⟨_, rfl⟩ := h; exact ⟨hlt, hb⟩
+            · simp only [next, hs]
+              simp
+              exact ⟨hb, by omega⟩
 
-theorem readPage_spec (rows : List Nat) (hpos : ∀ r ∈ rows, 0 < r) (s : St) (h : RInv rows s) :
-    ReadOK rows (next rows s) (readPage rows s) := by
+theorem readPage_spec (rows bad : List Nat) (hpos : ∀ r ∈ rows, 0 < r) (s : St) (h : RInv rows bad s) :
+    ReadOK rows bad s.lost (next rows s) (readPage rows bad s) := by
   obtain ⟨hi, hl, hsv⟩ := h
   unfold readPage
   cases hs : s.serve with
   | false =>
-    have := readLoop_spec rows hpos (rows.length + 1) s hi hs hl (by omega)
+    have := readLoop_spec rows bad hpos (rows.length + 1) s hi hs hl (by omega)
     have hn : next rows s = firstRow rows s.pos + s.skip := by simp [next, hs]
     cases hlast : s.last <;> simpa [hn] using this
   | true =>
     obtain ⟨li, lp, hlast, hidx⟩ := hsv hs
-    have hlp := hl li lp hlast
+    obtain ⟨hlp, hlb⟩ := hl li lp hlast
     have hn : next rows s = firstRow rows lp + s.skip := by simp [next, hs, hlast]
     rw [hn]
     simp only [hlast]
@@ -373,13 +417,13 @@ theorem readPage_spec (rows : List Nat) (hpos : ∀ r ∈ rows, 0 < r) (s : St) 
       · intro a b hab
         simp at hab
         obtain ⟨_, rfl⟩ := hab
-        exact hlp
+        exact ⟨hlp, hlb⟩
       · simp only [next]
         simp
         rw [hidx]
-        omega
+        exact ⟨hlb, by omega⟩
     · rename_i hge
-      have := readLoop_spec rows hpos (rows.length + 1)
+      have := readLoop_spec rows bad hpos (rows.length + 1)
         { s with serve := false, index := li + 1, skip := s.skip - nr }
         hi (by simp)
         (by
@@ -391,55 +435,81 @@ theorem readPage_spec (rows : List Nat) (hpos : ∀ r ∈ rows, 0 < r) (s : St) 
         rw [hidx]; omega
       simpa [he, hlast] using this
 
-/-- `ReadPage` keeps believed and actual page numbers in step -/
-theorem readLoop_agree (rows : List Nat) : ∀ (fuel : Nat) (s : St), Agree s →
-    Agree (readLoop rows fuel s).1
-  | 0, s, h => h
-  | fuel + 1, s, h => by
-    simp only [readLoop]
+/-- `ReadPage` keeps believed and actual page numbers in step as long as it does not fail -/
+theorem readLoop_agree (rows bad : List Nat) : ∀ (fuel : Nat) (s : St), (s.lost = false → Agree s) →
+    (readLoop rows bad fuel s).1.lost = false → Agree (readLoop rows bad fuel s).1
+  | 0, s, h, hl => h hl
+  | fuel + 1, s, h, hl => by
+    simp only [readLoop] at hl ⊢
     cases hr : rows[s.pos]? with
-    | none => exact h
+    | none => rw [hr] at hl; exact h hl
     | some nr =>
-      obtain ⟨h1, h2⟩ := h
-      simp only []
-      split
-      · refine ⟨by simp; omega, ?_⟩
-        intro li lp hh; simp at hh; omega
-      · split
-        · apply readLoop_agree rows fuel
+      rw [hr] at hl
+      simp only [] at hl ⊢
+      by_cases hb : s.pos ∈ bad
+      · rw [if_pos hb] at hl; simp at hl
+      · rw [if_neg hb] at hl ⊢
+        split
+        · rename_i h0
+          rw [if_pos h0] at hl
+          obtain ⟨h1, h2⟩ := h hl
           refine ⟨by simp; omega, ?_⟩
           intro li lp hh; simp at hh; omega
-        · refine ⟨by simp; omega, ?_⟩
-          intro li lp hh; simp at hh; omega
+        · rename_i h0
+          rw [if_neg h0] at hl
+          split
+          · rename_i h1'
+            rw [if_pos h1'] at hl
+            apply readLoop_agree rows bad fuel _ _ hl
+            intro hl'
+            obtain ⟨h1, h2⟩ := h hl'
+            refine ⟨by simp; omega, ?_⟩
+            intro li lp hh; simp at hh; omega
+          · rename_i h1'
+            rw [if_neg h1'] at hl
+            obtain ⟨h1, h2⟩ := h hl
+            refine ⟨by simp; omega, ?_⟩
+            intro li lp hh; simp at hh; omega
 
-theorem readPage_agree (rows : List Nat) (s : St) (hr : RInv rows s) (h : Agree s) :
-    Agree (readPage rows s).1 := by
+theorem readPage_agree (rows bad : List Nat) (s : St) (hr : RInv rows bad s) (h : s.lost = false → Agree s)
+    (hl : (readPage rows bad s).1.lost = false) : Agree (readPage rows bad s).1 := by
   obtain ⟨_, _, hsv⟩ := hr
-  obtain ⟨h1, h2⟩ := h
-  unfold readPage
+  unfold readPage at hl ⊢
   cases hs : s.serve with
   | false =>
-    have := readLoop_agree rows (rows.length + 1) s ⟨h1, h2⟩
+    rw [hs] at hl
+    have : (readLoop rows bad (rows.length + 1) s).1.lost = false := by
+      cases hlast : s.last <;> simpa [hlast] using hl
+    have := readLoop_agree rows bad (rows.length + 1) s h this
     cases hlast : s.last <;> simpa using this
   | true =>
     obtain ⟨li, lp, hlast, hidx⟩ := hsv hs
-    have hli := h2 li lp hlast
-    simp only [hlast]
+    rw [hs, hlast] at hl
+    simp only [hlast] at hl ⊢
     split
-    · refine ⟨by simp; omega, ?_⟩
+    · rename_i hlt
+      rw [if_pos hlt] at hl
+      obtain ⟨h1, h2⟩ := h hl
+      have hli := h2 li lp hlast
+      refine ⟨by simp; omega, ?_⟩
       intro a b hab
       simp at hab
       obtain ⟨h3, h4⟩ := hab
       omega
-    · apply readLoop_agree
+    · rename_i hlt
+      rw [if_neg hlt] at hl
+      apply readLoop_agree rows bad _ _ _ hl
+      intro hl'
+      obtain ⟨h1, h2⟩ := h hl'
+      have hli := h2 li lp hlast
       refine ⟨by simp; omega, ?_⟩
       intro a b hab
       simp at hab
       obtain ⟨h3, h4⟩ := hab
       omega
 
-theorem readPage_hasIndex (rows : List Nat) (s : St) : (readPage rows s).1.hasIndex = s.hasIndex := by
-  have loop : ∀ fuel (s : St), (readLoop rows fuel s).1.hasIndex = s.hasIndex := by
+theorem readPage_hasIndex (rows bad : List Nat) (s : St) : (readPage rows bad s).1.hasIndex = s.hasIndex := by
+  have loop : ∀ fuel (s : St), (readLoop rows bad fuel s).1.hasIndex = s.hasIndex := by
     intro fuel
     induction fuel with
     | zero => intro s; rfl
@@ -453,8 +523,10 @@ theorem readPage_hasIndex (rows : List Nat) (s : St) : (readPage rows s).1.hasIn
         split
         · rfl
         · split
-          · rw [ih]
           · rfl
+          · split
+            · rw [ih]
+            · rfl
   unfold readPage
   split
   · simp only []
@@ -463,63 +535,114 @@ theorem readPage_hasIndex (rows : List Nat) (s : St) : (readPage rows s).1.hasIn
     · rw [loop]
   · rw [loop]
 
-/-- a read turns the concrete outcome into a step of the reference reader -/
-theorem readOK_spec (c : Chunk) (n : Nat) (r : St × Out) (h : ReadOK c.rows n r) :
-    SpecOK c n .readPage (next c.rows r.1) r.2 := by
+/-- a reader that had lost its position stays lost through a read -/
+theorem readOK_lost (rows bad : List Nat) (start : Nat) (r : St × Out) (h : ReadOK rows bad true start r) :
+    r.1.lost = true := by
+  obtain ⟨_, _, h3⟩ := h
+  cases ho : r.2 with
+  | ok => simp [ho] at h3
+  | err => simp [ho] at h3
+  | eof => simp only [ho] at h3; exact h3.1
+  | page p st len => simp only [ho] at h3; exact h3.1
+  | corrupt => simp only [ho] at h3; exact h3.1
+
+/-- a read only loses the position on a chunk that has pages -/
+theorem readOK_lost_rows (rows bad : List Nat) (l0 : Bool) (start : Nat) (r : St × Out)
+    (h : ReadOK rows bad l0 start r) (hl : r.1.lost = true) : l0 = true ∨ rows ≠ [] := by
+  obtain ⟨_, _, h3⟩ := h
+  cases ho : r.2 with
+  | ok => simp [ho] at h3
+  | err => simp [ho] at h3
+  | eof => simp only [ho] at h3; exact Or.inl (by rw [← h3.1]; exact hl)
+  | page p st len => simp only [ho] at h3; exact Or.inl (by rw [← h3.1]; exact hl)
+  | corrupt =>
+    simp only [ho] at h3
+    obtain ⟨_, q, _, hq, _⟩ := h3
+    refine Or.inr ?_
+    intro hnil
+    simp [hnil] at hq
+
+/-- a read from a defined position is a step of the reference reader -/
+theorem readOK_spec (c : Chunk) (n : Nat) (r : St × Out) (h : ReadOK c.rows c.bad false n r) :
+    SpecOK c (some n) .readPage (npos c.rows r.1) r.2 := by
   obtain ⟨_, _, h3⟩ := h
   have htot : total c = c.rows.sum := rfl
   unfold SpecOK
   cases ho : r.2 with
   | ok => simp [ho] at h3
   | err => simp [ho] at h3
+  | corrupt =>
+    simp only [ho] at h3
+    simp only [npos, h3.1]
+    exact ⟨rfl, h3.2⟩
   | eof =>
     simp only [ho] at h3
-    simp only []
-    split
-    · exact ⟨trivial, h3.2⟩
-    · omega
+    simp only [npos, h3.1]
+    exact ⟨by omega, by simp [h3.2.2]⟩
   | page p st len =>
     simp only [ho] at h3
-    obtain ⟨e1, e2, e3, e4, e5, e6⟩ := h3
+    obtain ⟨e0, eb, e1, e2, e3, e4, e5, e6⟩ := h3
     subst e1
     have ht : target c.rows st = p := target_unique c.rows st p (by omega) e5 (by omega)
-    simp only []
-    split
-    · omega
-    · rw [ht, e3, ← e6]
-      refine ⟨?_, rfl, by omega, by omega⟩
-      congr 1
-      omega
+    simp only [npos, e0]
+    refine ⟨by omega, ht.symm, eb, trivial, by omega, ?_, by omega, by omega⟩
+    simp [e3, e6]
 
 /-! ### the repaired seek -/
 
-/-- invariant of the repaired reader -/
-def SInv (rows : List Nat) (s : St) : Prop := RInv rows s ∧ Agree s
+/-- the body of the repaired `SeekToRow` behind the `desync` block -/
+def seekCore (c : Chunk) (desync : Bool) (s : St) (k : Nat) : St × Out :=
+  if s.hasIndex = false then
+    ({ s with pos := 0, skip := k, index := 0, serve := false }, .ok)
+  else if c.rows.isEmpty then
+    if k = 0 then ({ s with skip := 0 }, .ok) else (s, .err)
+  else
+    let t := target c.rows k
+    let s := { s with skip := k - firstRow c.rows t, serve := false }
+    match s.last with
+    | some (li, _) =>
+      if t = li ∧ s.index = t + 1 then ({ s with serve := true }, .ok)
+      else if s.index = t ∧ desync = false then (s, .ok) else ({ s with index := t, pos := t }, .ok)
+    | none => if s.index = t ∧ desync = false then (s, .ok) else ({ s with index := t, pos := t }, .ok)
 
-theorem seekFixed_spec (c : Chunk) (s : St) (k : Nat) (h : SInv c.rows s) :
-    SInv c.rows (seekFixed c s k).1 ∧
-    (((seekFixed c s k).2 = .ok ∧ next c.rows (seekFixed c s k).1 = k) ∨
-     ((seekFixed c s k).2 = .err ∧ (seekFixed c s k).1 = s ∧ total c < k)) := by
-  obtain ⟨⟨hidx, hlast, hserve⟩, ⟨hpos, hag⟩⟩ := h
-  have hpos' : s.index = s.pos := hpos
-  unfold seekFixed
+theorem seekFixed_eq (c : Chunk) (s : St) (k : Nat) : seekFixed c s k = seekCore c s.lost (resync s) k := rfl
+
+/-- invariant of the repaired reader -/
+def SInv (c : Chunk) (s : St) : Prop :=
+  RInv c.rows c.bad s ∧ (s.lost = false → Agree s) ∧ (s.lost = true → c.rows ≠ [])
+
+theorem seekCore_spec (c : Chunk) (d : Bool) (s : St) (k : Nat) (hr : RInv c.rows c.bad s)
+    (hlost : s.lost = false) (hd0 : d = false → Agree s) (hd1 : d = true → s.last = none ∧ c.rows ≠ []) :
+    (RInv c.rows c.bad (seekCore c d s k).1 ∧ (seekCore c d s k).1.lost = false ∧ Agree (seekCore c d s k).1) ∧
+    (((seekCore c d s k).2 = .ok ∧ next c.rows (seekCore c d s k).1 = k) ∨
+     ((seekCore c d s k).2 = .err ∧ (seekCore c d s k).1 = s ∧ c.rows = [] ∧ total c < k)) := by
+  obtain ⟨hidx, hlast, hserve⟩ := hr
+  unfold seekCore
   split
   · -- no offset index
-    refine ⟨⟨⟨by simp, hlast, by simp⟩, ⟨by simp, hag⟩⟩, Or.inl ⟨rfl, ?_⟩⟩
-    simp [next, firstRow_zero]
+    refine ⟨⟨⟨by simp, hlast, by simp⟩, hlost, ⟨rfl, ?_⟩⟩, Or.inl ⟨rfl, ?_⟩⟩
+    · cases d with
+      | false => exact (hd0 rfl).2
+      | true => intro li lp hl; simp [(hd1 rfl).1] at hl
+    · simp [next, firstRow_zero]
   · split
     · rename_i he
       have hnil : c.rows = [] := by simpa using he
+      have hdf : d = false := by
+        cases d with
+        | false => rfl
+        | true => exact absurd hnil (hd1 rfl).2
+      obtain ⟨hpos, hag⟩ := hd0 hdf
       split
       · rename_i hk
-        refine ⟨⟨⟨hidx, hlast, hserve⟩, ⟨hpos, hag⟩⟩, Or.inl ⟨rfl, ?_⟩⟩
+        refine ⟨⟨⟨hidx, hlast, hserve⟩, hlost, ⟨hpos, hag⟩⟩, Or.inl ⟨rfl, ?_⟩⟩
         have hnone : s.last = none := by
           cases hl : s.last with
           | none => rfl
-          | some p => have := hlast p.1 p.2 (by simp [hl]); simp [hnil] at this
+          | some p => have := (hlast p.1 p.2 (by simp [hl])).1; simp [hnil] at this
         simp [next, hnone, hnil, firstRow, hk]
       · rename_i hk
-        refine ⟨⟨⟨hidx, hlast, hserve⟩, ⟨hpos, hag⟩⟩, Or.inr ⟨rfl, rfl, ?_⟩⟩
+        refine ⟨⟨⟨hidx, hlast, hserve⟩, hlost, ⟨hpos, hag⟩⟩, Or.inr ⟨rfl, rfl, hnil, ?_⟩⟩
         simp [total, hnil]; omega
     · have ht := target_spec c.rows k
       generalize hT : target c.rows k = t at ht
@@ -530,12 +653,19 @@ theorem seekFixed_spec (c : Chunk) (s : St) (k : Nat) (h : SInv c.rows s) :
         simp only []
         split
         · rename_i he
-          refine ⟨⟨⟨hidx, by simp [hl], by simp⟩, ⟨hpos, by simp [hl]⟩⟩, Or.inl ⟨rfl, ?_⟩⟩
-          simp [next, ← hpos', he]; omega
-        · refine ⟨⟨⟨htn, by simp [hl], by simp⟩, ⟨rfl, by simp [hl]⟩⟩, Or.inl ⟨rfl, ?_⟩⟩
+          obtain ⟨he1, he2⟩ := he
+          obtain ⟨hpos, hag⟩ := hd0 he2
+          refine ⟨⟨⟨hidx, by simp [hl], by simp⟩, hlost, ⟨hpos, by simp [hl]⟩⟩, Or.inl ⟨rfl, ?_⟩⟩
+          simp [next, ← hpos, he1]; omega
+        · refine ⟨⟨⟨htn, by simp [hl], by simp⟩, hlost, ⟨rfl, by simp [hl]⟩⟩, Or.inl ⟨rfl, ?_⟩⟩
           simp [next]; omega
       | some p =>
         obtain ⟨li, lp⟩ := p
+        have hdf : d = false := by
+          cases d with
+          | false => rfl
+          | true => have := (hd1 rfl).1; simp [hl] at this
+        obtain ⟨hpos, hag⟩ := hd0 hdf
         have hll := hlast li lp hl
         have hli : li = lp := hag li lp hl
         subst hli
@@ -545,78 +675,133 @@ theorem seekFixed_spec (c : Chunk) (s : St) (k : Nat) (h : SInv c.rows s) :
           obtain ⟨he1, he2⟩ := he
           subst he1
           refine ⟨⟨⟨hidx, by simpa [hl] using hlast, fun _ => ⟨t, t, by simp [hl], by show s.pos = t + 1; omega⟩⟩,
-            ⟨hpos, by simpa [hl] using hag⟩⟩, Or.inl ⟨rfl, ?_⟩⟩
+            hlost, ⟨hpos, by simpa [hl] using hag⟩⟩, Or.inl ⟨rfl, ?_⟩⟩
           simp [next, hl]; omega
         · split
           · rename_i he
-            refine ⟨⟨⟨hidx, by simpa [hl] using hlast, by simp⟩, ⟨hpos, by simpa [hl] using hag⟩⟩, Or.inl ⟨rfl, ?_⟩⟩
-            simp [next, ← hpos', he]; omega
-          · refine ⟨⟨⟨htn, by simpa [hl] using hlast, by simp⟩, ⟨rfl, by simpa [hl] using hag⟩⟩, Or.inl ⟨rfl, ?_⟩⟩
+            obtain ⟨he1, _⟩ := he
+            refine ⟨⟨⟨hidx, by simpa [hl] using hlast, by simp⟩, hlost, ⟨hpos, by simpa [hl] using hag⟩⟩, Or.inl ⟨rfl, ?_⟩⟩
+            simp [next, ← hpos, he1]; omega
+          · refine ⟨⟨⟨htn, by simpa [hl] using hlast, by simp⟩, hlost, ⟨rfl, by simpa [hl] using hag⟩⟩, Or.inl ⟨rfl, ?_⟩⟩
             simp [next]; omega
 
-theorem init_inv (rows : List Nat) (hi : Bool) : SInv rows (init hi) := by
+theorem seekFixed_spec (c : Chunk) (s : St) (k : Nat) (h : SInv c s) :
+    SInv c (seekFixed c s k).1 ∧
+    (((seekFixed c s k).2 = .ok ∧ (seekFixed c s k).1.lost = false ∧ next c.rows (seekFixed c s k).1 = k) ∨
+     ((seekFixed c s k).2 = .err ∧ (seekFixed c s k).1 = s ∧ total c < k)) := by
+  obtain ⟨hr, hag, hne⟩ := h
+  rw [seekFixed_eq]
+  cases hl : s.lost with
+  | false =>
+    have hres : resync s = s := by simp [resync, hl]
+    rw [hres]
+    obtain ⟨⟨h1, h2, h3⟩, h4⟩ := seekCore_spec c false s k hr hl (fun _ => hag hl) (by intro h; cases h)
+    refine ⟨⟨h1, fun _ => h3, fun h => by rw [h2] at h; cases h⟩, ?_⟩
+    rcases h4 with ⟨a, b⟩ | ⟨a, b, _, d⟩
+    · exact Or.inl ⟨a, h2, b⟩
+    · exact Or.inr ⟨a, b, d⟩
+  | true =>
+    have hrows := hne hl
+    have hres : resync s = { s with lost := false, last := none, serve := false } := by simp [resync, hl]
+    rw [hres]
+    obtain ⟨hidx, _, _⟩ := hr
+    obtain ⟨⟨h1, h2, h3⟩, h4⟩ := seekCore_spec c true { s with lost := false, last := none, serve := false } k
+      ⟨hidx, by simp, by simp⟩ rfl (by intro h; cases h) (fun _ => ⟨rfl, hrows⟩)
+    refine ⟨⟨h1, fun _ => h3, fun h => by rw [h2] at h; cases h⟩, ?_⟩
+    rcases h4 with ⟨a, b⟩ | ⟨_, _, d, _⟩
+    · exact Or.inl ⟨a, h2, b⟩
+    · exact absurd d hrows
+
+theorem init_inv (c : Chunk) (hi : Bool) : SInv c (init hi) := by
   simp [SInv, RInv, Agree, init]
 
-theorem stepFixed_inv (c : Chunk) (hpos : ∀ r ∈ c.rows, 0 < r) (s : St) (op : Op) (h : SInv c.rows s) :
-    SInv c.rows (stepFixed c s op).1 := by
+theorem stepFixed_inv (c : Chunk) (hpos : ∀ r ∈ c.rows, 0 < r) (s : St) (op : Op) (h : SInv c s) :
+    SInv c (stepFixed c s op).1 := by
   cases op with
   | seek k => exact (seekFixed_spec c s k h).1
-  | readPage => exact ⟨(readPage_spec c.rows hpos s h.1).1, readPage_agree c.rows s h.1 h.2⟩
+  | readPage =>
+    have hr := readPage_spec c.rows c.bad hpos s h.1
+    refine ⟨hr.1, fun hl => readPage_agree c.rows c.bad s h.1 h.2.1 hl, fun hl => ?_⟩
+    rcases readOK_lost_rows c.rows c.bad s.lost _ _ hr hl with h1 | h1
+    · exact h.2.2 h1
+    · exact h1
   | loadIndex => exact h
 
+theorem npos_of_lost_false (rows : List Nat) (s : St) (h : s.lost = false) : npos rows s = some (next rows s) := by
+  simp [npos, h]
+
 /-- every step of the repaired reader is a step of the reference reader -/
-theorem stepFixed_spec (c : Chunk) (hpos : ∀ r ∈ c.rows, 0 < r) (s : St) (op : Op) (h : SInv c.rows s) :
-    SpecOK c (next c.rows s) op (next c.rows (stepFixed c s op).1) (stepFixed c s op).2 := by
+theorem stepFixed_spec (c : Chunk) (hpos : ∀ r ∈ c.rows, 0 < r) (s : St) (op : Op) (h : SInv c s) :
+    SpecOK c (npos c.rows s) op (npos c.rows (stepFixed c s op).1) (stepFixed c s op).2 := by
   cases op with
   | seek k =>
-    rcases (seekFixed_spec c s k h).2 with ⟨h1, h2⟩ | ⟨h1, h2, h3⟩
-    · exact Or.inl ⟨h1, h2⟩
+    rcases (seekFixed_spec c s k h).2 with ⟨h1, h2, h3⟩ | ⟨h1, h2, h3⟩
+    · refine Or.inl ⟨h1, ?_⟩
+      show npos c.rows (seekFixed c s k).1 = some k
+      rw [npos_of_lost_false _ _ h2, h3]
     · refine Or.inr ⟨h1, ?_, h3⟩
-      show next c.rows (seekFixed c s k).1 = next c.rows s
+      show npos c.rows (seekFixed c s k).1 = npos c.rows s
       rw [h2]
-  | readPage => exact readOK_spec c _ _ (readPage_spec c.rows hpos s h.1)
+  | readPage =>
+    have hr := readPage_spec c.rows c.bad hpos s h.1
+    cases hl : s.lost with
+    | false =>
+      rw [npos_of_lost_false _ _ hl]
+      rw [hl] at hr
+      exact readOK_spec c _ _ hr
+    | true =>
+      rw [hl] at hr
+      have := readOK_lost _ _ _ _ hr
+      show SpecOK c (npos c.rows s) .readPage (npos c.rows (readPage c.rows c.bad s).1) _
+      simp [npos, hl, this, SpecOK]
   | loadIndex => exact ⟨rfl, rfl⟩
 
-/-! ### the code as it stands, away from the cached-page shortcut -/
+/-! ### the code before the repairs, away from the paths on which it goes wrong -/
 
-/-- the op does not take a path on which the unchanged code goes wrong: a seek (with offset
-    index) does not target the page recorded as cached, and the offset index is not loaded lazily
-    after the no-index path numbered the pages of a chunk with a dictionary -/
+/-- the op does not take a path on which the unchanged code goes wrong: no seek after a failed
+    read; a seek (with offset index) does not target the page recorded as cached; the offset index
+    is not loaded lazily after the no-index path numbered the pages of a chunk with a dictionary -/
 def safeOp (c : Chunk) (s : St) : Op → Bool
-  | .seek k => !s.hasIndex || (match s.last with
+  | .seek k => !s.lost && (!s.hasIndex || (match s.last with
       | some (li, _) => target c.rows k != li
-      | none => true)
+      | none => true))
   | .readPage => true
   | .loadIndex => !c.dict || s.hasIndex
 
 def SafeOp (c : Chunk) (s : St) (op : Op) : Prop := safeOp c s op = true
 
-theorem safeOp_seek (c : Chunk) (s : St) (k : Nat) (h : SafeOp c s (.seek k)) (hi : s.hasIndex = true) :
-    ∀ li lp, s.last = some (li, lp) → target c.rows k ≠ li := by
-  intro li lp hl
-  simp [SafeOp, safeOp, hi, hl] at h
-  exact h
+theorem safeOp_seek (c : Chunk) (s : St) (k : Nat) (h : SafeOp c s (.seek k)) :
+    s.lost = false ∧ (s.hasIndex = true → ∀ li lp, s.last = some (li, lp) → target c.rows k ≠ li) := by
+  simp only [SafeOp, safeOp, Bool.and_eq_true, Bool.not_eq_true', Bool.or_eq_true] at h
+  refine ⟨h.1, ?_⟩
+  intro hi li lp hl
+  have h2 := h.2
+  simp [hi, hl] at h2
+  exact h2
 
 theorem safeOp_load (c : Chunk) (s : St) (h : SafeOp c s .loadIndex) : c.dict = false ∨ s.hasIndex = true := by
   simp [SafeOp, safeOp] at h
   exact h
 
-/-- invariant of the unchanged reader along safe histories: the flag is never set, and page
-    numbers agree whenever they can ever be looked at (there is an offset index, or one may
-    still be loaded because the chunk has no dictionary) -/
+/-- invariant of the unchanged reader along safe histories: the flag is never set, and (while no
+    read has failed) page numbers agree whenever they can ever be looked at (there is an offset
+    index, or one may still be loaded because the chunk has no dictionary) -/
 def AInv (c : Chunk) (s : St) : Prop :=
-  RInv c.rows s ∧ s.serve = false ∧ ((s.hasIndex = true ∨ c.dict = false) → Agree s)
+  RInv c.rows c.bad s ∧ s.serve = false ∧
+  (s.lost = false → (s.hasIndex = true ∨ c.dict = false) → Agree s)
 
 theorem seekAsis_spec (c : Chunk) (s : St) (k : Nat) (h : AInv c s) (hs : SafeOp c s (.seek k)) :
     AInv c (seekAsis c s k).1 ∧
-    (((seekAsis c s k).2 = .ok ∧ next c.rows (seekAsis c s k).1 = k) ∨
+    (((seekAsis c s k).2 = .ok ∧ (seekAsis c s k).1.lost = false ∧ next c.rows (seekAsis c s k).1 = k) ∨
      ((seekAsis c s k).2 = .err ∧ (seekAsis c s k).1 = s ∧ total c < k)) := by
-  obtain ⟨⟨hidx, hlast, hserve⟩, hsv, hagree⟩ := h
+  obtain ⟨⟨hidx, hlast, hserve⟩, hsv, hagree0⟩ := h
+  obtain ⟨hlost, hsafe0⟩ := safeOp_seek c s k hs
+  have hagree := hagree0 hlost
   unfold seekAsis
   split
   · rename_i hni
-    refine ⟨⟨⟨by simp, hlast, by simp [hsv]⟩, hsv, ?_⟩, Or.inl ⟨rfl, ?_⟩⟩
-    · intro hp
+    refine ⟨⟨⟨by simp, hlast, by simp [hsv]⟩, hsv, ?_⟩, Or.inl ⟨rfl, hlost, ?_⟩⟩
+    · intro _ hp
       have hdict : c.dict = false := by
         rcases hp with hp | hp
         · simp [hni] at hp
@@ -632,13 +817,13 @@ theorem seekAsis_spec (c : Chunk) (s : St) (k : Nat) (h : AInv c s) (hs : SafeOp
       have hnil : c.rows = [] := by simpa using he
       split
       · rename_i hk
-        refine ⟨⟨⟨hidx, hlast, hserve⟩, hsv, hagree⟩, Or.inl ⟨rfl, ?_⟩⟩
+        refine ⟨⟨⟨hidx, hlast, hserve⟩, hsv, hagree0⟩, Or.inl ⟨rfl, hlost, ?_⟩⟩
         simp [next, hsv, hnil, firstRow, hk]
       · rename_i hk
-        refine ⟨⟨⟨hidx, hlast, hserve⟩, hsv, hagree⟩, Or.inr ⟨rfl, rfl, ?_⟩⟩
+        refine ⟨⟨⟨hidx, hlast, hserve⟩, hsv, hagree0⟩, Or.inr ⟨rfl, rfl, ?_⟩⟩
         simp [total, hnil]; omega
     · have ht := target_spec c.rows k
-      have hsafe := safeOp_seek c s k hs hi'
+      have hsafe := hsafe0 hi'
       generalize hT : target c.rows k = t at ht hsafe
       have htn : t ≤ c.rows.length := by omega
       simp only []
@@ -647,9 +832,9 @@ theorem seekAsis_spec (c : Chunk) (s : St) (k : Nat) (h : AInv c s) (hs : SafeOp
         simp only []
         split
         · rename_i he
-          refine ⟨⟨⟨hidx, by simp [hl], by simp [hsv]⟩, hsv, fun _ => ⟨hpos, by simp [hl]⟩⟩, Or.inl ⟨rfl, ?_⟩⟩
+          refine ⟨⟨⟨hidx, by simp [hl], by simp [hsv]⟩, hsv, fun _ _ => ⟨hpos, by simp [hl]⟩⟩, Or.inl ⟨rfl, hlost, ?_⟩⟩
           simp [next, hsv, ← hpos, he]; omega
-        · refine ⟨⟨⟨htn, by simp [hl], by simp [hsv]⟩, hsv, fun _ => ⟨rfl, by simp [hl]⟩⟩, Or.inl ⟨rfl, ?_⟩⟩
+        · refine ⟨⟨⟨htn, by simp [hl], by simp [hsv]⟩, hsv, fun _ _ => ⟨rfl, by simp [hl]⟩⟩, Or.inl ⟨rfl, hlost, ?_⟩⟩
           simp [next, hsv]; omega
       | some p =>
         obtain ⟨li, lp⟩ := p
@@ -659,9 +844,9 @@ theorem seekAsis_spec (c : Chunk) (s : St) (k : Nat) (h : AInv c s) (hs : SafeOp
         · rename_i he; exact absurd he hne
         · split
           · rename_i he
-            refine ⟨⟨⟨hidx, by simpa [hl] using hlast, by simp [hsv]⟩, hsv, fun _ => ⟨hpos, by simpa [hl] using hag⟩⟩, Or.inl ⟨rfl, ?_⟩⟩
+            refine ⟨⟨⟨hidx, by simpa [hl] using hlast, by simp [hsv]⟩, hsv, fun _ _ => ⟨hpos, by simpa [hl] using hag⟩⟩, Or.inl ⟨rfl, hlost, ?_⟩⟩
             simp [next, hsv, ← hpos, he]; omega
-          · refine ⟨⟨⟨htn, by simpa [hl] using hlast, by simp [hsv]⟩, hsv, fun _ => ⟨rfl, by simpa [hl] using hag⟩⟩, Or.inl ⟨rfl, ?_⟩⟩
+          · refine ⟨⟨⟨htn, by simpa [hl] using hlast, by simp [hsv]⟩, hsv, fun _ _ => ⟨rfl, by simpa [hl] using hag⟩⟩, Or.inl ⟨rfl, hlost, ?_⟩⟩
             simp [next, hsv]; omega
 
 theorem init_ainv (c : Chunk) (hi : Bool) : AInv c (init hi) := by
@@ -672,37 +857,47 @@ theorem stepAsis_inv (c : Chunk) (hpos : ∀ r ∈ c.rows, 0 < r) (s : St) (op :
   cases op with
   | seek k => exact (seekAsis_spec c s k h hs).1
   | readPage =>
-    have hr := readPage_spec c.rows hpos s h.1
+    have hr := readPage_spec c.rows c.bad hpos s h.1
     refine ⟨hr.1, hr.2.1, ?_⟩
-    intro hp
-    have : (readPage c.rows s).1.hasIndex = s.hasIndex := readPage_hasIndex c.rows s
-    simp only [stepAsis] at hp
+    intro hl hp
+    have : (readPage c.rows c.bad s).1.hasIndex = s.hasIndex := readPage_hasIndex c.rows c.bad s
+    simp only [stepAsis] at hp hl
     rw [this] at hp
-    exact readPage_agree c.rows s h.1 (h.2.2 hp)
+    exact readPage_agree c.rows c.bad s h.1 (fun hl0 => h.2.2 hl0 hp) hl
   | loadIndex =>
     obtain ⟨⟨h1, h2, h3⟩, h4, h5⟩ := h
-    refine ⟨⟨h1, h2, h3⟩, h4, fun _ => ?_⟩
+    refine ⟨⟨h1, h2, h3⟩, h4, fun hl _ => ?_⟩
     have hp : s.hasIndex = true ∨ c.dict = false := by
       rcases safeOp_load c s hs with hs | hs
       · exact Or.inr hs
       · exact Or.inl hs
-    exact h5 hp
+    exact h5 hl hp
 
 theorem stepAsis_spec (c : Chunk) (hpos : ∀ r ∈ c.rows, 0 < r) (s : St) (op : Op) (h : AInv c s)
     (hs : SafeOp c s op) :
-    SpecOK c (next c.rows s) op (next c.rows (stepAsis c s op).1) (stepAsis c s op).2 := by
+    SpecOK c (npos c.rows s) op (npos c.rows (stepAsis c s op).1) (stepAsis c s op).2 := by
   cases op with
   | seek k =>
-    rcases (seekAsis_spec c s k h hs).2 with ⟨h1, h2⟩ | ⟨h1, h2, h3⟩
-    · exact Or.inl ⟨h1, h2⟩
+    rcases (seekAsis_spec c s k h hs).2 with ⟨h1, h2, h3⟩ | ⟨h1, h2, h3⟩
+    · refine Or.inl ⟨h1, ?_⟩
+      show npos c.rows (seekAsis c s k).1 = some k
+      rw [npos_of_lost_false _ _ h2, h3]
     · refine Or.inr ⟨h1, ?_, h3⟩
-      show next c.rows (seekAsis c s k).1 = next c.rows s
+      show npos c.rows (seekAsis c s k).1 = npos c.rows s
       rw [h2]
-  | readPage => exact readOK_spec c _ _ (readPage_spec c.rows hpos s h.1)
-  | loadIndex =>
-    refine ⟨rfl, ?_⟩
-    show next c.rows { s with hasIndex := true } = next c.rows s
-    rfl
+  | readPage =>
+    have hr := readPage_spec c.rows c.bad hpos s h.1
+    cases hl : s.lost with
+    | false =>
+      rw [npos_of_lost_false _ _ hl]
+      rw [hl] at hr
+      exact readOK_spec c _ _ hr
+    | true =>
+      rw [hl] at hr
+      have := readOK_lost _ _ _ _ hr
+      show SpecOK c (npos c.rows s) .readPage (npos c.rows (readPage c.rows c.bad s).1) _
+      simp [npos, hl, this, SpecOK]
+  | loadIndex => exact ⟨rfl, rfl⟩
 
 /-! ### histories -/
 
@@ -715,9 +910,9 @@ def AllOk (step : St → Op → St × Out) (ok : St → Op → Bool) : St → Li
 theorem run_refines (c : Chunk) (step : St → Op → St × Out) (I : St → Prop) (ok : St → Op → Bool)
     (hinv : ∀ s op, I s → ok s op = true → I (step s op).1)
     (hspec : ∀ s op, I s → ok s op = true →
-      SpecOK c (next c.rows s) op (next c.rows (step s op).1) (step s op).2) :
+      SpecOK c (npos c.rows s) op (npos c.rows (step s op).1) (step s op).2) :
     ∀ (ops : List Op) (s : St), I s → AllOk step ok s ops = true →
-      RunOK c (next c.rows s) ops (outs step s ops)
+      RunOK c (npos c.rows s) ops (outs step s ops)
   | [], s, _, _ => RunOK.nil _
   | op :: ops, s, hI, hok => by
     simp only [AllOk, Bool.and_eq_true] at hok
@@ -729,8 +924,8 @@ theorem allOk_true (step : St → Op → St × Out) : ∀ (ops : List Op) (s : S
   | [], _ => rfl
   | op :: ops, s => by simp [AllOk, allOk_true step ops]
 
-theorem next_init (rows : List Nat) (hi : Bool) : next rows (init hi) = 0 := by
-  simp [next, init, firstRow_zero]
+theorem npos_init (rows : List Nat) (hi : Bool) : npos rows (init hi) = some 0 := by
+  simp [npos, next, init, firstRow_zero]
 
 /-- states the repaired reader can be in -/
 inductive ReachFixed (c : Chunk) (hi : Bool) : St → Prop where
@@ -738,28 +933,31 @@ inductive ReachFixed (c : Chunk) (hi : Bool) : St → Prop where
   | step {s : St} (op : Op) : ReachFixed c hi s → ReachFixed c hi (stepFixed c s op).1
 
 theorem reachFixed_inv (c : Chunk) (hpos : ∀ r ∈ c.rows, 0 < r) (hi : Bool) (s : St)
-    (h : ReachFixed c hi s) : SInv c.rows s := by
+    (h : ReachFixed c hi s) : SInv c s := by
   induction h with
-  | init => exact init_inv c.rows hi
+  | init => exact init_inv c hi
   | step op _ ih => exact stepFixed_inv c hpos _ op ih
 
 /-- decidable check of a trace against the reference reader (sound for `RunOK`) -/
-def checkRun (c : Chunk) : Nat → List Op → List Out → Bool
+def checkRun (c : Chunk) : Option Nat → List Op → List Out → Bool
   | _, [], [] => true
-  | _, .seek k :: ops, .ok :: os => checkRun c k ops os
+  | _, .seek k :: ops, .ok :: os => checkRun c (some k) ops os
   | n, .seek k :: ops, .err :: os => decide (total c < k) && checkRun c n ops os
   | n, .loadIndex :: ops, .ok :: os => checkRun c n ops os
-  | n, .readPage :: ops, o :: os =>
-    if total c ≤ n then o == .eof && checkRun c n ops os
-    else o == .page (target c.rows n) n (firstRow c.rows (target c.rows n + 1) - n) &&
-         checkRun c (firstRow c.rows (target c.rows n + 1)) ops os
+  | none, .readPage :: ops, _ :: os => checkRun c none ops os
+  | some n, .readPage :: ops, .corrupt :: os =>
+    c.bad.any (fun q => decide (q < c.rows.length ∧ firstRow c.rows q ≤ n)) && checkRun c none ops os
+  | some n, .readPage :: ops, .eof :: os => decide (total c ≤ n) && checkRun c (some n) ops os
+  | some n, .readPage :: ops, .page p st len :: os =>
+    decide (n < total c ∧ p = target c.rows n ∧ p ∉ c.bad ∧ st = n ∧ len = firstRow c.rows (p + 1) - n) &&
+    checkRun c (some (firstRow c.rows (p + 1))) ops os
   | _, _, _ => false
 
-theorem runOK_check (c : Chunk) : ∀ (n : Nat) (ops : List Op) (os : List Out),
+theorem runOK_check (c : Chunk) : ∀ (n : Option Nat) (ops : List Op) (os : List Out),
     RunOK c n ops os → checkRun c n ops os = true := by
   intro n ops os h
   induction h with
-  | nil n => rfl
+  | nil n => cases n <;> rfl
   | @cons n op n' out ops os h1 _ ih =>
     cases op with
     | seek k =>
@@ -770,16 +968,26 @@ theorem runOK_check (c : Chunk) : ∀ (n : Nat) (ops : List Op) (os : List Out),
       obtain ⟨rfl, rfl⟩ := h1
       simpa [checkRun] using ih
     | readPage =>
-      simp only [SpecOK] at h1
-      simp only [checkRun]
-      split
-      · rename_i hc
-        rw [if_pos hc] at h1
-        obtain ⟨rfl, rfl⟩ := h1
-        simp [ih]
-      · rename_i hc
-        rw [if_neg hc] at h1
-        obtain ⟨rfl, rfl, _, _⟩ := h1
-        simp [ih]
+      cases n with
+      | none =>
+        simp only [SpecOK] at h1
+        subst h1
+        simpa [checkRun] using ih
+      | some n =>
+        simp only [SpecOK] at h1
+        cases out with
+        | ok => exact absurd h1 (by simp)
+        | err => exact absurd h1 (by simp)
+        | corrupt =>
+          obtain ⟨rfl, q, hq, h2, h3⟩ := h1
+          simp only [checkRun, Bool.and_eq_true]
+          exact ⟨List.any_eq_true.mpr ⟨q, hq, by simp [h2, h3]⟩, ih⟩
+        | eof =>
+          obtain ⟨h2, rfl⟩ := h1
+          simp [checkRun, h2, ih]
+        | page p st len =>
+          obtain ⟨a, b, d, e, f, rfl, _, _⟩ := h1
+          simp only [checkRun, Bool.and_eq_true]
+          exact ⟨by simp [a, ← b, d, e, f], ih⟩
 
 end PqModel.Seek
